@@ -1,7 +1,7 @@
 PROP = dict(
     id="C15",
     lean_modules=["TongoProofs.C15", "TongoProofs.C15Tlb"],
-    gen=["WalletConsts", "WalletV5Id", "TlLength", "TlbTypes"],
+    gen=["WalletConsts", "WalletV5Id", "TlbTypes"],
     # the model IS the specification for these ops: the address is defined as the hash of the state-init laid out as
     # the TON schema says, the send parameters and the confirmation verdict are what the property states
     spec_ops=("w.addr", "w.gwa", "w.gsi", "w.send", "w.sendc", "w.ctx", "cell.hash", "seed.key", "prim.sha512", "prim.hmac512", "prim.pbkdf2_512"),
